@@ -1,9 +1,12 @@
 """C01 — each halo row indexes exactly its own subsample particles (DESIGN.md §7 C01)."""
 import json
+import os
 
-import numpy as np
+os.environ['NUMBA_BOUNDSCHECK'] = '1'   # must precede the first numba import: a stray index becomes IndexError
 
-import catexpect as cx
+import numpy as np  # noqa: E402
+
+import catexpect as cx  # noqa: E402
 
 THEOREMS = [
     'AbacusVerif.Catalog.load_spec',
@@ -53,7 +56,14 @@ def run_case(ctx, pool, case, answers=None):
         ctx.count('col:' + c)
     ctx.count('nfiles:%d' % lab['nfiles'])
     ctx.count('nhalos-loaded:%s' % ('0' if status == 'ok' and obs['n'] == 0 else '>0' if status == 'ok' else 'exc'))
-    good = cx.oracle(ctx, truth, case, status, obs, record, pid='C01')
+    if truth.well_formed(case):
+        good = cx.oracle(ctx, truth, case, status, obs, record, pid='C01')
+    else:
+        # ranges past the end of a particle file: outside the property's precondition; model correspondence only
+        ctx.count('not-well-formed:model-only')
+        good = True
+        if status != 'ok':
+            ctx.disagree('real loader raises on a truncated particle file, the model does not', case, 'n/a', obs)
     if status != 'ok':
         return False
     masks = cx.masks_from_record(case, record)
@@ -101,6 +111,11 @@ def boundary_cases(rng):
     out.append(case(one_cat, [0], 'dir', subsamples=False))
     for k in range(3):
         out.append(cx.draw_lc_case(rng, {'kind': 'lc', 'seed': 20 + k, 'nhalo': [5, 0, 1][k]}))
+    # ill-formed on purpose (particle files of superslab 0 cut short): the clipped-slice branches of the model
+    trunc_cat = {'kind': 'snap', 'seed': 14, 'nhalos': [4, 2], 'inds': [0, 1], 'cleaned': True, 'away': 0.0, 'trunc': 3}
+    out.append(case(trunc_cat, [0, 1], 'dir', passthrough=True, fields='all', subsamples=True))
+    out.append(case(trunc_cat, [0, 1], 'dir', subsamples=dict(A=True, B=True, pos=True, pid=True)))
+    out.append(case(trunc_cat, [1, 0], 'list', cleaned=False, subsamples=dict(A=True, B=True, rvint=True, packedpid=True)))
     return out
 
 
